@@ -9,6 +9,8 @@ package main
 //        (1/0, E = does not compile), fast = answer of the shortcut alone (t/f, - = declined or absent)
 //   C12 Q <site> <text> { <field>=<value> }* # <plain> <paren>
 //        the same predicate through SQL (site where|having): row accepted 1/0, with and without parentheses
+//   C12 K <form> <text> { <field>=<value> }* # <seq> <ntrue> <nfalse> <npanic>
+//        one compiled predicate evaluated by 4-8 goroutines at once (see c12k.go)
 // Values: n (nil) | i:<kind 0..9>:<decimal> | d:<float> (float64) | f:<float> (float32, widened) |
 //         s:<hex> | b:0|1 | o (any other Go type).  Floats: nan | +inf | -inf | <mantissa>:<exponent> (m*2^e, exact).
 
@@ -371,7 +373,8 @@ func runC12(tier string, seed uint64, o *Out) error {
 		o.Line("%s", l)
 	}
 	o.Count(fmt.Sprintf("sql_predicates_%d", len(preds)))
-	return nil
+	// (5) one compiled predicate evaluated by several goroutines at once (harness/c12k.go)
+	return runC12K(tier, seed, rng, o)
 }
 
 // c12SQL runs one predicate at the WHERE and HAVING call sites, bare and parenthesised.
